@@ -10,8 +10,13 @@
      (beat/onset.validate, segment.validate_boundary / validate_structure, hierarchy.validate_hier_intervals,
      multipitch.validate, transcription.validate, transcription_velocity.validate); Proofs/ValidatorsProps.v proves
      that on well-shaped arrays they coincide with those models.
-   Every raise of these functions is a ValueError (InvalidChordException for chord labels); `hierarchy`'s
-   `intervals_hier[0]` on an empty list is the one IndexError.  Warnings are not modelled.
+   Every raise of these functions is a ValueError (InvalidChordException for chord labels), EXCEPT
+     - `hierarchy`'s `intervals_hier[0]` on an empty list: IndexError;
+     - on a 0-d array (shape = ()): `len(a)` raises TypeError ("len() of unsized object") and `a.shape[0]` raises
+       IndexError BEFORE any validation in segment.validate_boundary (len), hierarchy.validate_hier_intervals (len, through
+       util.generate_labels), melody.validate_voicing / validate, transcription.validate (pitches),
+       transcription_velocity.validate (velocities) (.shape[0]): [arr_len], [arr_shape0].
+   Warnings are not modelled.
    NOTE (faithful, a known finding): validate_frequencies with allow_negatives=False bounds |f| only, so negative
    frequencies whose magnitude is in range pass. *)
 From Coq Require Import List Bool Arith ZArith QArith Qabs Qminmax.
@@ -32,6 +37,9 @@ Definition size_of (sh : list nat) : nat := fold_right Nat.mul 1%nat sh.
 Definition wf_arr (a : arr) : bool := (ndim a =? length (shape a))%nat && (length (data a) =? size_of (shape a))%nat.
 Definition shape0 (a : arr) : nat := nth 0 (shape a) 0%nat.           (* a.shape[0] = len(a) *)
 Definition asize (a : arr) : nat := length (data a).                   (* a.size *)
+(* len(a): a 0-d array is unsized (TypeError);  a.shape[0]: the shape tuple of a 0-d array is empty (IndexError) *)
+Definition arr_len (a : arr) : res nat := match shape a with [] => Raise TypeError | n :: _ => Ok n end.
+Definition arr_shape0 (a : arr) : res nat := match shape a with [] => Raise IndexError | n :: _ => Ok n end.
 
 (* (np.diff(events) < 0).any() is false *)
 Fixpoint nondecreasing (l : list Q) : bool :=
@@ -94,8 +102,13 @@ Definition events_validate_arr (ref est : arr) : res unit :=
   _ <- validate_events_arr EV_MAX_TIME ref ;; validate_events_arr EV_MAX_TIME est.
 
 (* ---------------------------------------------------------------- segment.validate_boundary / validate_structure *)
-Definition validate_boundary_arr (ref est : arr) : res unit :=
+(* transcription.validate_intervals(ref, est): the two util validators, nothing else *)
+Definition validate_pair_arr (ref est : arr) : res unit :=
   _ <- validate_intervals_arr ref ;; validate_intervals_arr est.
+(* segment.validate_boundary first compares len(reference_intervals), len(estimated_intervals) with min_size (for the
+   warnings): a 0-d array is rejected there with TypeError, before any validation *)
+Definition validate_boundary_arr (ref est : arr) : res unit :=
+  _ <- arr_len ref ;; _ <- arr_len est ;; validate_pair_arr ref est.
 Definition np_atol : Q := (3022314549036573 # 302231454903657293676544)%Q.     (* the binary64 1e-08 *)
 Definition np_rtol : Q := (5902958103587057 # 590295810358705651712)%Q.        (* the binary64 1e-05 *)
 Definition allclose (a b : Q) : bool := qleb (Qabs (a - b)) (np_atol + np_rtol * Qabs b)%Q.
@@ -115,15 +128,16 @@ Definition validate_structure_arr (ri : arr) (nrl : nat) (ei : arr) (nel : nat) 
   end.
 
 (* ---------------------------------------------------------------- hierarchy.validate_hier_intervals *)
-(* every deeper level against the top level with generated labels (len(labels) = len(intervals) by construction);
-   a single-level hierarchy is not validated at all; `intervals_hier[0]` of an empty list raises IndexError *)
+(* every deeper level against the top level with generated labels (util.generate_labels(x) has len(x) entries: TypeError
+   on a 0-d array, for the top level before the loop and for each deeper level before it is validated);
+   a single-level hierarchy is not validated beyond that; `intervals_hier[0]` of an empty list raises IndexError *)
 Fixpoint validate_levels_arr (top : arr) (rest : list arr) : res unit :=
   match rest with
   | [] => Ok tt
-  | l :: t => _ <- validate_structure_arr top (shape0 top) l (shape0 l) ;; validate_levels_arr top t
+  | l :: t => n <- arr_len l ;; _ <- validate_structure_arr top (shape0 top) l n ;; validate_levels_arr top t
   end.
 Definition validate_hier_arr (H : list arr) : res unit :=
-  match H with [] => Raise IndexError | top :: rest => validate_levels_arr top rest end.
+  match H with [] => Raise IndexError | top :: rest => _ <- arr_len top ;; validate_levels_arr top rest end.
 
 (* ---------------------------------------------------------------- multipitch.validate *)
 Definition MP_MAX_TIME : Q := 30000.
@@ -161,7 +175,49 @@ Definition velocity_validate_arr (ri : arr) (rp rv : list Q) (ei : arr) (ep ev :
   else if existsb (fun v => qltb v 0) ev then Raise ValueError
   else Ok tt.
 
+(* the same on arrays of any shape: `.shape[0]` of a 0-d pitch / velocity array raises IndexError (after the intervals have
+   been validated); `x.size > 0 and np.min(x) <= 0` looks at all elements *)
+Definition transcription_validate_nd (ri rp ei ep : arr) : res unit :=
+  _ <- validate_intervals_arr ri ;;
+  _ <- validate_intervals_arr ei ;;
+  n <- arr_shape0 rp ;;
+  if negb (shape0 ri =? n)%nat then Raise ValueError else
+  m <- arr_shape0 ep ;;
+  if negb (shape0 ei =? m)%nat then Raise ValueError
+  else if existsb (fun p => qleb p 0) (data rp) then Raise ValueError
+  else if existsb (fun p => qleb p 0) (data ep) then Raise ValueError
+  else Ok tt.
+Definition velocity_validate_nd (ri rp rv ei ep ev : arr) : res unit :=
+  _ <- transcription_validate_nd ri rp ei ep ;;
+  n <- arr_shape0 rv ;;
+  if negb (n =? shape0 rp)%nat then Raise ValueError else
+  m <- arr_shape0 ev ;;
+  if negb (m =? shape0 ep)%nat then Raise ValueError
+  else if existsb (fun v => qltb v 0) (data rv) then Raise ValueError
+  else if existsb (fun v => qltb v 0) (data ev) then Raise ValueError
+  else Ok tt.
+
+(* ---------------------------------------------------------------- melody.validate_voicing / melody.validate on arrays of any shape *)
+(* the list-level models are Model/Melody.v; here `.shape[0]` of a 0-d array raises IndexError, in the order of evaluation
+   (`or` is lazy: the later operands are not evaluated once a mismatch is found) *)
+Definition voicing_out_of_range (v : Q) : bool := qltb v 0 || qltb 1 v.
+Definition melody_validate_voicing_nd (rv ev : arr) : res unit :=
+  n <- arr_shape0 rv ;; m <- arr_shape0 ev ;;
+  if negb (n =? m)%nat then Raise ValueError
+  else if existsb voicing_out_of_range (data rv) then Raise ValueError
+  else if existsb voicing_out_of_range (data ev) then Raise ValueError
+  else Ok tt.
+Definition melody_validate_nd (rv rc ev ec : arr) : res unit :=
+  a <- arr_shape0 rv ;; b <- arr_shape0 rc ;;
+  if negb (a =? b)%nat then Raise ValueError else
+  c <- arr_shape0 ev ;; d <- arr_shape0 ec ;;
+  if negb (c =? d)%nat then Raise ValueError
+  else if negb (b =? d)%nat then Raise ValueError
+  else Ok tt.
+
 (* ---------------------------------------------------------------- exception tags (correspondence at tag level) *)
-(* 0 = returns, 1 = ValueError, 2 = InvalidChordException, 3 = any other exception class *)
+(* 0 = returns, 1 = ValueError, 2 = InvalidChordException, 3 = TypeError, 4 = IndexError, 5 = any other exception class *)
 Definition tag {A} (r : res A) : nat :=
-  match r with Ok _ => 0 | Raise ValueError => 1 | Raise InvalidChord => 2 | Raise _ => 3 end%nat.
+  match r with
+  | Ok _ => 0 | Raise ValueError => 1 | Raise InvalidChord => 2 | Raise TypeError => 3 | Raise IndexError => 4 | Raise _ => 5
+  end%nat.
